@@ -831,6 +831,11 @@ func opSplit(x *opCtx) {
 	t := x.pick()
 	snap := deepCopy(t)
 	sep := splitRunes[r.Intn(len(splitRunes))]
+	if sep >= utf8.RuneSelf && !validSegments(t) {
+		// a rune cut in two by a segment boundary (Partition at a byte index
+		// can do that) is one rune in the plain text but not in any segment
+		sep = '\n'
+	}
 	call := func() string { return fmt.Sprintf("%s.SplitByRune(%q)", show(t), sep) }
 	parts := t.SplitByRune(sep)
 	c.Count("op_split", 1)
@@ -1154,6 +1159,9 @@ func opCount(x *opCtx) {
 	c := x.c
 	t := x.pick()
 	sep := splitRunes[c.Rand.Intn(len(splitRunes))]
+	if sep >= utf8.RuneSelf && !validSegments(t) {
+		sep = '\n'
+	}
 	p := plain(t)
 	if got, want := t.CountRune(sep), strings.Count(p, string(sep)); got != want {
 		c.Violation("countrune:content", fmt.Sprintf("%s.CountRune(%q) = %d, the plain text has %d", show(t), sep, got, want), show(t))
